@@ -9,7 +9,7 @@ import ast
 from .facts import (BIND_ALIASES, COUNTMIN, SKETCH_CLASSES, array_alloc, const_int, facts_of, scalar_ctor)
 from .flow import Arr, ArrSlice, Bytes, Num, Opaque, Tup, cond_atoms, show_cond
 from .lin import Lin, show_lin
-from .model import AnalysisError, Ty, dotted, self_attr, unparse, walk_no_nested
+from .model import resolve_temps, AnalysisError, Ty, dotted, self_attr, unparse, walk_no_nested
 from .report import FAIL, OK, UNDECIDED
 
 COUNTER_ATTRS = {"cms", "lhh_count"}      # integer counter tables (wrap would corrupt a count)
@@ -194,6 +194,19 @@ def rule_attr_type(ctx, classes=SKETCH_CLASSES, only=None):
                 ctx.ob("attr-type", F.ctor(cls), d.stmt, "%s: self.%s = %s(...) -> %s(%s: %r)" % (cls.name, sa, aty, need[1], need[2], need[0]),
                        "constructor type %r holds every value of the parameter type %r it feeds" % (aty, need[0]), okk,
                        "" if okk else "self.%s is built with %r but feeds a %r parameter: larger inputs are truncated before the kernel sees them" % (sa, aty, need[0]))
+                # ... and no kernel parameter the attribute is passed to is narrower than the attribute: Numba casts the argument to
+                # the declared parameter type without a range check
+                if okk:
+                    narrow = [c for c in cons if c[0].kind == aty.kind and c[0].bits < aty.bits]
+                    # the narrowest consumer defines the domain (previous obligation); a consumer narrower than ANOTHER consumer of the
+                    # same attribute in a sibling kernel family is a slip of one signature
+                    widest = max(c[0].bits for c in cons)
+                    sibling_narrow = [c for c in cons if c[0].bits < aty.bits]
+                    ctx.ob("attr-type", F.ctor(cls), d.stmt, "%s: self.%s (%r) -> %s" % (cls.name, sa, aty, sorted({"%s:%r" % (c[1], c[0]) for c in cons})),
+                           "every kernel parameter fed from the attribute holds every value of the attribute's type (no silent narrowing at the call)",
+                           not sibling_narrow,
+                           "" if not sibling_narrow else "%s declares `%s: %r`, narrower than self.%s (%r): the value is truncated on the way into that kernel"
+                           % (sibling_narrow[0][1], sibling_narrow[0][2], sibling_narrow[0][0], sa, aty))
 
 
 def rule_call_width(ctx, kernels):
@@ -357,12 +370,32 @@ def keylen_axioms(F, k):
 # range / mono
 # ---------------------------------------------------------------------------
 
-def rule_range(ctx, attrs=COUNTER_ATTRS, modules=None, rule="range"):
+def class_kernels(F, classes, methods=None):
+    """Keys of the kernels reachable from the given methods (default: all) of the classes' OWN definitions, including the kernels those
+    kernels call.  Used to scope a property's arithmetic rules to the code the property is about."""
+    out, todo = set(), []
+    for cls in F.classes(classes):
+        for mname, m in cls.methods.items():
+            if methods is not None and mname not in methods:
+                continue
+            todo.extend(c.callee for c in F.calls_from(m) if c.callee.is_kernel)
+    while todo:
+        k = todo.pop()
+        if k.key in out:
+            continue
+        out.add(k.key)
+        todo.extend(c.callee for c in F.calls_from(k) if c.callee.is_kernel)
+    return out
+
+
+def rule_range(ctx, attrs=COUNTER_ATTRS, modules=None, rule="range", only=None):
     """Every value stored into a counter cell lies in [0, ceiling]; unsigned subtractions on counters do not wrap."""
     F = facts_of(ctx)
     n_store = n_sub = 0
     for k, tw in kernels_writing(F, attrs):
         if modules and k.module.short not in modules:
+            continue
+        if only is not None and k.key not in only:
             continue
         w = walk_kernel(F, k)
         stores = [e for e in w.events if e.kind == "store" and e.arr.name in tw]
@@ -434,12 +467,14 @@ def _is_counter_term(t, tw, F, k):
     return False
 
 
-def rule_mono(ctx, attrs=MONO_ATTRS, modules=None):
+def rule_mono(ctx, attrs=MONO_ATTRS, modules=None, only=None):
     """A store never lowers a cell of a count-min table / an HLL register."""
     F = facts_of(ctx)
     n = 0
     for k, tw in kernels_writing(F, attrs):
         if modules and k.module.short not in modules:
+            continue
+        if only is not None and k.key not in only:
             continue
         w = walk_kernel(F, k)
         stores = [e for e in w.events if e.kind == "store" and e.arr.name in tw]
@@ -581,7 +616,7 @@ def hash_site(w, events, value, ev):
     return None
 
 
-def rule_qmin(ctx, kernels=None, rule="qmin"):
+def rule_qmin(ctx, kernels=None, rule="qmin", strict_seed=True):
     F = facts_of(ctx)
     ks = kernels if kernels is not None else query_kernels(F)
     for k in ks:
@@ -660,6 +695,10 @@ def rule_qmin(ctx, kernels=None, rule="qmin"):
                 col = rd.idx[1] if len(rd.idx) == 2 else None
                 rowok = len(rd.idx) == 2 and rd.idx[0].lin == Lin.term(lp.varterm)
                 hs = _column_is_row_hash(w, evs, col, lp, k, F) if col is not None else None
+                if hs is not True and not strict_seed and col is not None:
+                    # for the estimate bounds any column that is a fixed function of (key, row, width) serves (add and query share it
+                    # through the bucket array); that each row hashes independently is property C14's rule `seedrow`
+                    hs = _column_is_function_of_key_and_row(w, evs, col, lp, k, F) or hs
                 if pr and rowok and hs is True:
                     good = True
                 else:
@@ -727,6 +766,28 @@ def _column_is_row_hash(w, evs, col, lp, k, F):
                     return check_hash(s.value)
         return "bucket cell is not written in this iteration"
     return check_hash(col)
+
+
+def _column_is_function_of_key_and_row(w, evs, col, lp, k, F):
+    from .deps import Deps
+    D = Deps(w, known_terms=[lp.varterm] if lp.varterm else [])
+    lin = col.lin
+    t = lin.single_term()
+    if t is not None and t[0] == "cell":
+        # bucket scratch array: the value stored for this row in this iteration
+        lin = None
+        for s_ in evs:
+            if s_.kind == "store" and s_.arr.name == t[1] and len(s_.idx) == 1 and s_.idx[0].lin == Lin.term(lp.varterm) \
+                    and s_.memver.get(t[1], 0) + 1 == t[2] and isinstance(s_.value, Num):
+                lin = s_.value.lin
+        if lin is None:
+            return False
+    deps = D.of_lin(lin)
+    bad = [d for d in deps if d[0] in ("array", "unknown", "attr") or (d[0] == "call" and d[1] not in ("fasthash64", "fasthash32", "murmur3", "len", "min", "max"))]
+    keyp = {p for p, ty in k.ptypes.items() if ty.kind == "bytes"}
+    uses_key = any(d[0] == "param" and d[1] in keyp for d in deps)
+    uses_hash = any(d[0] == "call" and d[1] in ("fasthash64", "fasthash32", "murmur3") for d in deps)
+    return (not bad) and uses_key and uses_hash
 
 
 def helper_hash_summary(F, callee):
@@ -894,10 +955,12 @@ def rule_cons(ctx, kernels=None):
             agg(ctx, "addr", k, node, src(k, node), "cells addressed are those of this key (fresh buckets from the dominating query)", res_b)
 
 
-def rule_newcount(ctx):
+def rule_newcount(ctx, only=None):
     F = facts_of(ctx)
     qk = {q.name for q in query_kernels(F)}
     for k in add_kernels(F):
+        if only is not None and k.key not in only:
+            continue
         w = walk_kernel(F, k)
         tp = [p for p, a in table_params(F, k, {"cms"}).items() if a == "cms"]
         if len(tp) != 1:
@@ -1321,31 +1384,30 @@ def rule_findbase_post(ctx):
     ctx.analysed_funcs.add(fb.key)
     from .rules_hll import nf, parse_nf
     # residual function: the helper whose return has the normal form of  base**K - M*base + (M - 1)
+    from .model import expand_expr
     resid_funcs = set()
     for c in F.calls_from(fb):
         r = [n for n in walk_no_nested(c.callee.node) if isinstance(n, ast.Return)]
         if len(r) == 1 and len(c.callee.params) == 4:
             b_, mc_, nr_, um_ = c.callee.params
-            t = nf(r[0].value)
-            for n in walk_no_nested(c.callee.node):
-                if isinstance(n, ast.Assign) and isinstance(n.targets[0], ast.Name) and nf(n.value) == parse_nf("%s - %s" % (mc_, nr_)):
-                    m_ = n.targets[0].id
-                    if t == parse_nf("%s ** (%s - %s) - %s * %s + (%s - 1.0)" % (b_, um_, nr_, m_, b_, m_)):
-                        resid_funcs.add(c.callee.name)
+            # temporaries and one-line helpers resolved: the return is  base**(K) - M*base + (M - 1)  with M = max_count - num_reserved
+            t = nf(expand_expr(ctx.model, c.callee, r[0].value))
+            M = "(%s - %s)" % (mc_, nr_)
+            if t == parse_nf("%s ** (%s - %s) - %s * %s + (%s - 1.0)" % (b_, um_, nr_, M, b_, M)):
+                resid_funcs.add(c.callee.name)
     rets = [n for n in walk_no_nested(fb.node) if isinstance(n, ast.Return)]
     guards = []
     for n in fb.body():
         if isinstance(n, ast.If) and any(isinstance(s, ast.Raise) for s in n.body):
             exc = [s for s in n.body if isinstance(s, ast.Raise)][0].exc
             en = dotted(exc.func) if isinstance(exc, ast.Call) else dotted(exc)
-            t = n.test
+            t = resolve_temps(fb.node, n.test, allow_subscript=True, pure_only=False, in_loops=False, loose=True)
             # abs(<residual>) > tol   (either orientation)
             if isinstance(t, ast.Compare) and len(t.ops) == 1 and isinstance(t.ops[0], (ast.Gt, ast.GtE, ast.Lt, ast.LtE)):
                 sides = [t.left, t.comparators[0]]
                 big = sides[0] if isinstance(t.ops[0], (ast.Gt, ast.GtE)) else sides[1]
                 if isinstance(big, ast.Call) and dotted(big.func) in ("abs", "np.abs", "np.fabs", "math.fabs") and big.args:
                     inner = big.args[0]
-                    names = {x.id for x in ast.walk(inner) if isinstance(x, ast.Name)}
                     retname = rets[-1].value.id if rets and isinstance(rets[-1].value, ast.Name) else None
                     is_resid = isinstance(inner, ast.Call) and dotted(inner.func) in resid_funcs and len(inner.args) == 4 \
                         and retname is not None and [unparse(a) for a in inner.args] == [retname] + fb.params
@@ -1362,6 +1424,18 @@ def rule_findbase_post(ctx):
     for cls in F.classes(COUNTMIN[1:]):
         for d in F.attr_defs(cls):
             if d.attr == "base":
-                okk = isinstance(d.value, ast.Call) and [unparse(a) for a in d.value.args] == ["self.max_count", "self.num_reserved", "self.uint_maxval"]
+                # each argument is the attribute itself or the very expression the attribute was just built from
+                adefs = {}
+                for d2 in F.attr_defs(cls):
+                    adefs.setdefault(d2.attr, set()).add(unparse(d2.value, 400))
+                ctor_ = F.ctor(cls)
+
+                def same(arg, attr):
+                    if unparse(arg) == "self." + attr:
+                        return True
+                    r = resolve_temps(ctor_.node, arg, allow_subscript=True, pure_only=False, in_loops=False, loose=True)
+                    return unparse(r, 400) in adefs.get(attr, set())
+                okk = isinstance(d.value, ast.Call) and len(d.value.args) == 3 and all(
+                    same(a, at) for a, at in zip(d.value.args, ("max_count", "num_reserved", "uint_maxval")))
                 ctx.ob("findbase-post", F.ctor(cls), d.stmt, "%s: self.base = %s" % (cls.name, unparse(d.value, 70)),
                        "the base is solved for this sketch's own (max_count, num_reserved, ceiling)", okk)
